@@ -30,6 +30,10 @@ impl DocCommentTable {
     pub fn clear(&mut self) {
         self.table.clear();
     }
+
+    pub fn drop(&mut self, path: PathId) {
+        self.table.retain(|(p, _), _| *p != path);
+    }
 }
 
 thread_local!(static DOC_COMMENT_TABLE: RefCell<DocCommentTable> = RefCell::new(DocCommentTable::default()));
@@ -50,4 +54,11 @@ pub fn export_by_path(path: PathId) -> Vec<(u32, StrId)> {
 
 pub fn clear() {
     DOC_COMMENT_TABLE.with(|f| f.borrow_mut().clear())
+}
+
+/// Removes the doc comments of one file. They are keyed by line, so the
+/// comments of an earlier text would otherwise attach to whatever the next
+/// parse puts below those lines.
+pub fn drop(path: PathId) {
+    DOC_COMMENT_TABLE.with(|f| f.borrow_mut().drop(path))
 }
